@@ -62,8 +62,15 @@ def program(rng, nstmts=40, names=("a", "b", "x"), fnnames=("b", "f")):
             n += 1
             continue
         ok = False
-        if c < 0.36:
+        if c < 0.30:
             ok = emit("local " + x, [E("decl", x, 1)], 1)
+        elif c < 0.32:
+            # Luau type positions (as in MC_Renamer): the namespace of `y.T` is an occurrence of the declared local y
+            ok = declared(y) and emit("local %s: %s.T = u" % (x, y), [E("use", "u", 4), E("use", y, 2), E("keep", "T", 3), E("decl", x, 1)], 4)
+        elif c < 0.35:
+            ok = declared(y) and emit("u(%s :: %s.T)" % (x, y), [E("use", "u", 1), E("use", x, 2), E("use", y, 3), E("keep", "T", 4)], 4)
+        elif c < 0.36:
+            ok = declared(y) and emit("type T = %s.T" % y, [E("keep", "type", 1), E("keep", "T", 2), E("use", y, 3), E("keep", "T", 4)], 4)
         elif c < 0.48:
             ok = emit("local %s = %s" % (x, y), [E("use", y, 2), E("decl", x, 1)], 2)
         elif c < 0.60:
